@@ -19,13 +19,13 @@ ID = "C15"
 GEN = []
 CORR_NAME = "inferred-type-or-reject"
 RULE = ("four streams, every expression built node by node in a FRESH environment (first-time verdict): "
-        "(1) arithmetic over + - * / with <= 4 (quick) / 6 (thorough) operator nodes over unbounded, half-bounded, "
+        "(1) arithmetic over + - * / with <= 4 (quick) / 6 (thorough) operator nodes per operand over unbounded, half-bounded, "
         "bounded and singleton int/real fluents and parameters and constants of any magnitude (10**400, n/(10**20+1)), "
         "divisors mostly non-zero constants, plus ill-sorted operands; (2) Equals over ALL ordered pairs of 20 operand "
         "kinds (bool/int/real constants and fluents, objects/parameters/variables/fluents of related, sibling and "
         "unrelated user types, timing); (3) Boolean expressions of the shared generator (quantifiers, fluent and "
         "interpreted-function applications) with ill-typed mutations (wrong sort, super-type argument, arity), "
-        "trajectory operators, Dot; (4) is_compatible on random pairs of types. Non-trivial = an accepted expression "
+        "trajectory operators, Dot, user-typed applications with sub-typed arguments; (4) is_compatible on random pairs of types. Non-trivial = an accepted expression "
         "whose top node is arithmetic with a non-constant operand (interval arithmetic exercised), or any Equals, "
         "or an application with arguments.")
 ASSUMPTIONS = [
@@ -245,7 +245,7 @@ def cases(rng, tier):
         for b in KINDS:
             yield typeof(["eq", OPERANDS[a], OPERANDS[b]])
     # (1) arithmetic
-    for i in range(650 if quick else 14000):
+    for i in range(560 if quick else 14000):
         e = num_expr(rng, rng.randint(1, budget))
         r = rng.random()
         if r < 0.06:
@@ -255,7 +255,7 @@ def cases(rng, tier):
         yield typeof(e)
     # (3) Boolean structure, applications, quantifiers, trajectory operators, Dot
     g = upx.ExprGen(rng, big=True, quantifiers=True, ifuns=True, params=True)
-    for i in range(260 if quick else 5000):
+    for i in range(220 if quick else 5000):
         e = g.boolean(rng.choice([1, 2, 2, 3]))
         r = rng.random()
         if r < 0.3:
@@ -269,8 +269,15 @@ def cases(rng, tier):
         elif r < 0.5:
             e = [rng.choice(["plus", "minus", "le"]), ["timing", rng.choice(["start", "end"])], g.num(1)]
         yield typeof(e)
+    # user-typed expressions (objects, parameters, object-valued fluents with sub-typed arguments)
+    for i in range(60 if quick else 1200):
+        arg = rng.choice([["o", "s1", "S"], ["o", "ss1", "SS"], ["p", "ps", U("S")], ["o", "t1", "T"], ["o", "r1", "S2"],
+                          ["fl", ["ats", U("S"), []]], ["fl", ["atss", U("SS"), []]]])
+        yield typeof(rng.choice([["fl", ["at", U("T"), []]], ["fl", ["own", U("T"), [U("S")]], arg],
+                                 ["fl", ["own2", U("S2"), [U("T")]], arg], ["o", "ss1", "SS"], ["p", "pt", U("T")],
+                                 ["fl", ["ate", U("E"), []]]]))
     # (4) is_compatible
-    for i in range(160 if quick else 3000):
+    for i in range(120 if quick else 3000):
         yield ["compat", TYPES_SEXP, rng.choice(TYPE_POOL), rng.choice(TYPE_POOL)]
 
 
@@ -319,7 +326,7 @@ def stats(payload, ans):
     t = ["top-" + e[0]]
     if ans == "reject":
         t.append("reject")
-        if build(payload)[1] == "zero-div":
+        if "div" in heads(e, []) and build(payload)[1] == "zero-div":
             t.append("reject-zero-div")
     elif isinstance(ans, list) and ans[0] == "crash":
         t.append("crash")
